@@ -178,7 +178,7 @@ def obligations(progs, rule_filter=None):
                     kinds_present.add('HOLE')
                 if kd == 'construct' or n.get('k') == 'new':
                     d = R.dest_arg(n) if n.get('k') == 'call' else (n.get('placement') or [None])[0]
-                    kinds_present.add('TEMP' if (d is not None and R.elem_storage_local(d) is not None) else 'RAWTAIL')
+                    kinds_present.add('TEMP' if (d is not None and R.elem_storage_local(d, cl.linit) is not None) else 'RAWTAIL')
             if f.get('clsq') in VEC_CLASSES[:4] and any(R.role(n)[0] == 'destroy' for n in A.calls(body)):
                 kinds_present.add('DEAD-TAIL')
             for kp in kinds_present:
@@ -426,7 +426,8 @@ def check_dom(progs, callers_establish=None):
                     return all(short(g['name']) == 'swap2' and _call_precedes(g, 'adjustEachOtherCapacity', h['id']) for g in callers)
                 if h.get('access') == 'public':
                     return False
-                return all(checked_entry(g, depth + 1) for g in callers)
+                # a private helper: every caller has run a capacity check of the container before it calls the helper, or is itself such a helper
+                return all(_check_precedes(g, h['id']) or checked_entry(g, depth + 1) for g in callers)
             if checked_entry(f):
                 init = frozenset({'chk:this', 'chk:*'})
             seen = {}
@@ -452,6 +453,21 @@ def check_dom(progs, callers_establish=None):
                                    'the destination may be a buffer smaller than the number of elements written' % (A.cshort(n) or 'placement new', key[1]),
                                    where=f['pname'], unit=prog.uname))
     return rr
+
+
+def _check_precedes(g, then_id):
+    """In g's body a capacity check (role `check`: adjustCapacity, GrowingPolicy::Check, reserve ...) precedes every call to function id then_id."""
+    order = A.eval_order(g.get('body') or {}, g.get('inits'))
+    calls = sorted([n for n in walk(g.get('body') or {}) if n.get('k') == 'call' and id(n) in order], key=lambda n: order[id(n)])
+    seen_check, any_call = False, False
+    for n in calls:
+        if R.role(n)[0] == 'check':
+            seen_check = True
+        if n.get('fn') == then_id:
+            any_call = True
+            if not seen_check:
+                return False
+    return any_call and seen_check
 
 
 def _call_precedes(g, first_short, then_id):
@@ -572,13 +588,13 @@ class StrongClient(Client):
                 self.report(n, 'an assignment onto live elements may throw part-way outside any roll-back')
             ns = s | {'dirty'}
         elif kind == 'destroy' and self.eng.handler_depth == 0:
-            did = R.elem_storage_local(n['args'][0]) if n.get('args') else None
+            did = R.elem_storage_local(n['args'][0], getattr(self, 'linit', None)) if n.get('args') else None
             if did is None:
                 ns = s | {'dirty'}
         elif kind in ('commit', 'erase'):
             ns = s | {'dirty'}
         elif kind == 'construct' and det in ('uninitialized_relocate', 'uninitialized_relocate_n', 'relocate_at', 'move_n'):
-            src_temp = R.elem_storage_local(n['args'][0]) if n.get('args') else None
+            src_temp = R.elem_storage_local(n['args'][0], getattr(self, 'linit', None)) if n.get('args') else None
             if src_temp is None:
                 ns = s | {'dirty'}       # the sources were live elements and are gone now
         out.append(('n', ns))
@@ -602,6 +618,7 @@ def strong(progs):
             def report(n, why, res=res):
                 res[(id(n), why)] = n
             cl = StrongClient(may, report, E)
+            cl.linit = A.local_inits(f['body'])
             eng = Engine(cl)
             cl.eng = eng
             eng.run(f['body'], frozenset(), f.get('inits'))
